@@ -1,6 +1,7 @@
 ------------------------------ MODULE HistoryMC ------------------------------
 EXTENDS History, Json
 C12 == 1..12
+C8 == 1..8
 Init == InitWith("func")
 EmitScn == (Bound /\ Len(hist) = MaxLen) => PrintT(<<"SCN", ToJson([hist |-> hist])>>)
 =============================================================================
